@@ -503,15 +503,23 @@ Proof. intros W L h o. rewrite warm_spec, cold_spec. reflexivity. Qed.
 (* D. the repaired resolver: the caller's binding decides                                        *)
 (* ------------------------------------------------------------------------------------------- *)
 Lemma binding_skip : forall pkg pre r ref,
-  forallb (skipped pkg) pre = true -> binding_module pkg (pre ++ r) ref = binding_module pkg r ref.
+  forallb (passes pkg ref) pre = true -> binding_module pkg (pre ++ r) ref = binding_module pkg r ref.
 Proof.
   induction pre as [|f pre IH]; intros r ref H; [reflexivity|].
   cbn [forallb] in H. apply andb_true_iff in H. destruct H as [Hf Hp].
-  cbn [app binding_module]. unfold skipped in Hf.
+  cbn [app binding_module]. unfold passes, skipped in Hf.
   destruct (lookup ref (f_globals f)) as [o|]; [|apply IH; exact Hp].
   destruct (f_gname f) as [m|]; [|apply IH; exact Hp].
+  rewrite orb_false_r in Hf.
   destruct (String.eqb m "") eqn:E1; cbn [negb andb]; [apply IH; exact Hp|].
   cbn [orb] in Hf. rewrite Hf. cbn [negb]. apply IH. exact Hp.
+Qed.
+
+Lemma skipped_passes : forall pkg s l, forallb (skipped pkg) l = true -> forallb (passes pkg s) l = true.
+Proof.
+  intros pkg s. induction l as [|f l IH]; intros H; [reflexivity|].
+  cbn [forallb] in *. apply andb_true_iff in H. destruct H as [Hf Hl].
+  apply andb_true_iff. split; [unfold passes; rewrite Hf; reflexivity | apply IH; exact Hl].
 Qed.
 
 Definition expect (e : entry) (s : string) (m : string) (o : obj) : result :=
@@ -541,13 +549,13 @@ Section Caller.
 
   Lemma resolve_body_caller : forall chain pre c post s g m,
     is_ident s = true ->
-    forallb (skipped (l_pkg L)) chain = true -> forallb (skipped (l_pkg L)) pre = true ->
+    forallb (skipped (l_pkg L)) chain = true -> forallb (passes (l_pkg L) s) pre = true ->
     lookup s (f_globals c) = Some g -> f_gname c = Some m -> skipped (l_pkg L) c = false ->
     resolve_body true L (chain ++ pre ++ c :: post) s = Some m.
   Proof.
     intros chain pre c post s g m Hid Hl Hp Hg Hn Hs.
     unfold resolve_body. rewrite (is_ident_no_dot s Hid). cbn [andb].
-    rewrite (binding_skip _ _ _ _ Hl), (binding_skip _ _ _ _ Hp).
+    rewrite (binding_skip _ _ _ _ (skipped_passes _ s _ Hl)), (binding_skip _ _ _ _ Hp).
     cbn [binding_module]. rewrite Hg, Hn.
     unfold skipped in Hs. rewrite Hn in Hs. apply orb_false_elim in Hs. destruct Hs as [H1 H2].
     rewrite H1, H2. reflexivity.
@@ -560,7 +568,7 @@ Section Caller.
 
   Lemma fr_spec_caller : forall chain pre c post s g m,
     is_ident s = true ->
-    forallb (skipped (l_pkg L)) chain = true -> forallb (skipped (l_pkg L)) pre = true ->
+    forallb (skipped (l_pkg L)) chain = true -> forallb (passes (l_pkg L) s) pre = true ->
     lookup s (f_globals c) = Some g -> f_gname c = Some m -> skipped (l_pkg L) c = false ->
     fr_spec L (chain ++ pre ++ c :: post) s = (s, Some m).
   Proof.
@@ -573,7 +581,7 @@ Section Caller.
   Lemma repaired_bare : forall h e pre c post s g m d o,
     match e with ECodecM | ECodecU | EDecodePre | ECodecPost => False | _ => True end ->
     is_ident s = true ->
-    lib_ok L e = true -> forallb (skipped (l_pkg L)) pre = true ->
+    lib_ok L e = true -> forallb (passes (l_pkg L) s) pre = true ->
     lookup s (f_globals c) = Some g -> f_gname c = Some m -> skipped (l_pkg L) c = false ->
     lookup m (w_modules W) = Some d -> lookup s d = Some o -> not_module o = true ->
     warm true W L h (OCall e (RStr s) (pre ++ c :: post)) = expect e s m o.
@@ -854,4 +862,13 @@ Lemma repaired_qualified_examples :
   warm true W0 L2 [call_b] (OCall EDecode (RStr "mod_a.Node") [fc; fmain]) = ROk [cls 1 "mod_a"] /\
   caller_module_binding "typelib" [fc; fmain] "mod_a" = Some "mod_c" /\
   libs_ok L2 = true /\ l_strip_lead L2 = true /\ l_caller_head L2 = true.
+Proof. vm_compute. repeat split. Qed.
+
+(* the reference is issued by a helper module that does not bind the name, on behalf of mod_a, then of mod_b (with mod_a
+   further out): each gets the class of the NEAREST module that binds the name *)
+Lemma repaired_helper_example :
+  warm true W0 L2 [OCall EUnmarshal (RStr "Node") [fh; fa; fmain]] (OCall EUnmarshal (RStr "Node") [fh; fh; fb; fa; fmain])
+  = ROk [cls 2 "mod_b"] /\
+  cold true W0 L2 (OCall EUnmarshal (RStr "Node") [fh; fa; fmain]) = ROk [cls 1 "mod_a"] /\
+  forallb (passes "typelib" "Node") [fh; fh] = true /\ skipped "typelib" fh = false.
 Proof. vm_compute. repeat split. Qed.
